@@ -344,6 +344,14 @@ func ask(h *dnsserver.FBDNSDB, q *query) (out string) {
 	return respCanon(rc, err, w, req)
 }
 
+func ctxWithMax(maxAns int) context.Context {
+	ctx := context.Background()
+	if maxAns > 0 {
+		ctx = dnsserver.WithMaxAnswer(ctx, maxAns)
+	}
+	return ctx
+}
+
 func setSeparateBitmap(b string) {
 	db.SeparateBitMap = b == "cdbsep"
 }
